@@ -5,7 +5,7 @@
 (* invariants discriminate) and generation of schedules (Gen_GossipPeers).    *)
 EXTENDS GossipPeers, Json
 
-CONSTANTS MaxStop, MaxJoin, UOrder      \* UOrder: the updates in the order in which they are broadcast (symmetry)
+CONSTANTS MaxStop, MaxJoin, MaxReset, UOrder      \* UOrder: the updates in the order in which they are broadcast (symmetry)
 
 MCOrder == <<"s1", "s2", "s3", "b1", "b2", "b3", "b4">>
 Idx(u) == CHOOSE i \in 1 .. Len(UOrder) : UOrder[i] = u
@@ -21,11 +21,13 @@ Next ==
   \/ \E m \in Ids, n \in Ids : Learn(m, n)
   \/ (used.join < MaxJoin /\ \E n \in Ids, b \in Budgets : Restart(n, b))
   \/ \E m \in Ids, n \in Ids : Reconnect(m, n)
+  \/ \E a \in Ids, b \in Ids : Probe(a, b)
+  \/ (used.reset < MaxReset /\ \E n \in Ids : ResetIn(n))
   \/ \E n \in Ids : Poll(n)
   \/ \E n \in Ids : Expire(n)
   \/ \E n \in Ids : Flush(n)
 
 Spec == Init /\ [][Next]_vars
 
-View == <<life, mem, ghost, failed, cache, st, gq, net, origin, cohort, wide, ready, settle, used>>
+View == <<life, mem, ghost, failed, cache, st, gq, net, origin, cohort, pool, hurt, wide, ready, settle, used>>
 =============================================================================
